@@ -153,7 +153,7 @@ func (w *JobWorld) oracleC17(br *world.BlockResult) []*core.Violation {
 		if op.kind == "create" {
 			if ex.ok {
 				if j, known := w.Jobs[op.job.ID]; known && (j != op.job || seenCreate[op.job.ID]) {
-					out = append(out, vio("C17", "duplicate-job-id", h, nil, fmt.Sprintf("job id %s was created a second time (by %s)", op.job.ID, op.user.Name)))
+					out = append(out, vio("C17", "duplicate-job-id", h, nil, fmt.Sprintf("job id %s was created a second time (by %s)", op.job.ID, op.who())))
 				}
 				seenCreate[op.job.ID] = true
 			}
@@ -170,7 +170,7 @@ func (w *JobWorld) oracleC17(br *world.BlockResult) []*core.Violation {
 		}
 		q := newCalls[ex.msgID]
 		if q == nil {
-			out = append(out, vio("C17", "no-call-enqueued", h, nil, fmt.Sprintf("successful execution of job %s by %s returned message id %d but no new contract call with that id is queued", j.ID, op.user.Name, ex.msgID)))
+			out = append(out, vio("C17", "no-call-enqueued", h, nil, fmt.Sprintf("successful execution of job %s by %s returned message id %d but no new contract call with that id is queued", j.ID, op.who(), ex.msgID)))
 			continue
 		}
 		delete(newCalls, ex.msgID)
@@ -182,7 +182,7 @@ func (w *JobWorld) oracleC17(br *world.BlockResult) []*core.Violation {
 			}
 			want = op.payload
 		}
-		want = append(append([]byte(nil), want...), common.LeftPadBytes(op.user.Addr.Bytes(), 32)...)
+		want = append(append([]byte(nil), want...), common.LeftPadBytes(op.requester().Bytes(), 32)...)
 		if q.Chain != j.Chain {
 			out = append(out, vio("C17", "wrong-chain", h, nil, fmt.Sprintf("job %s targets %s but the call was queued for %s", j.ID, j.Chain, q.Chain)))
 		}
@@ -191,7 +191,7 @@ func (w *JobWorld) oracleC17(br *world.BlockResult) []*core.Violation {
 		}
 		if !bytes.Equal(s.Payload, want) {
 			out = append(out, vio("C17", "wrong-payload", h, map[string]string{"modifiable": fmt.Sprint(j.Modifiable), "caller_payload": fmt.Sprint(op.payload != nil)},
-				fmt.Sprintf("job %s (modifiable=%v, caller payload given=%v) executed by %s: queued payload %x, expected stored/caller payload followed by the 32-byte padded requester %x", j.ID, j.Modifiable, op.payload != nil, op.user.Name, s.Payload, want)))
+				fmt.Sprintf("job %s (modifiable=%v, caller payload given=%v) executed by %s: queued payload %x, expected stored/caller payload followed by the 32-byte padded requester %x", j.ID, j.Modifiable, op.payload != nil, op.who(), s.Payload, want)))
 		}
 		w.R.Stats.Probe("c17_execution_checked")
 	}
